@@ -141,6 +141,11 @@ def s1_attr_split():
         ('same_trait_custom_vs_plain', [dw(['Debug'], [('Pred', ['T', ':', 'Tr'])]), dw(['Debug'], ['T'])]),
         ('same_trait_overlap', [dw(['Clone', 'Debug'], ['T']), dw(['Debug', 'Hash'], ['U'])]),
         ('same_trait_nobound_vs_bound', [dw(['Hash']), dw(['Hash'], ['T'])]),
+        # the repeated trait is not the first trait of the later attribute / the earlier attribute is not the first attribute
+        ('same_trait_later_in_list', [dw(['Clone'], ['T']), dw(['Debug'], ['U']), dw(['Hash', 'Clone'], ['T'])]),
+        ('same_trait_later_in_list_diff', [dw(['Clone'], ['T']), dw(['Hash', 'Debug', 'Clone'], ['U'])]),
+        ('same_trait_second_and_third', [dw(['Debug'], ['U']), dw(['Clone'], ['T']), dw(['Hash'], ['V']), dw(['Clone'], ['T'])]),
+        ('same_trait_second_and_third_diff', [dw(['Debug'], ['U']), dw(['Clone'], ['T']), dw(['Clone'], ['V'])]),
     ]
     # adjacent attributes: merged only when the bound LISTS are equal (not merely equal as sets)
     rel = [('equal', ['T', 'U'], ['T', 'U']), ('permuted', ['T', 'U'], ['U', 'T']), ('set_eq_a', ['T', 'U'], ['T', 'T']), ('set_eq_b', ['T', 'T'], ['T', 'U']),
@@ -525,6 +530,9 @@ def s1_stage_a():
     yield 'stagea/visited_first', st('S', f2, [('Other', (True, ['derive_where', 'derive_where_visited']), []), dw(['Clone'])])
     yield 'stagea/visited_custom', st('S', f2, [cr(('EPath', (False, ['dw_']))), dw(['Clone']), ('Other', (False, ['dw_', 'derive_where_visited']), [])])
     yield 'stagea/visited_other_crate', st('S', f2, [cr(('EPath', (False, ['dw_']))), dw(['Clone']), ('Other', (True, ['derive_where', 'derive_where_visited']), [])])
+    # somebody else's attribute with a lone `crate = ..` argument (serde has one) is not derive_where's crate option
+    yield 'stagea/foreign_crate_attr', st('S', f2, [('Other', P('serde'), ['(', 'crate', '=', '"serde_"', ')']), dw(['Clone'])])
+    yield 'stagea/foreign_crate_attr_after', st('S', f2, [dw(['Clone', 'Debug']), ('Other', P('other'), ['(', 'crate', '=', 'my', '::', 'path', ')'])])
     yield 'stagea/qualified_second', st('S', f2, [dw(['Clone']), ('Other', (True, ['derive_where', 'derive_where']), ['(', 'Debug', ')'])])
     yield 'stagea/other_attrs', item(('Struct', 'Named', [field('a', ['T'], [('Other', P('doc'), ['=', '"field"']), sub('skip')], ['pub']), field('b', ['u8'], [('Other', P('cfg'), ['(', 'all', '(', ')', ')'])])]),
                                       'S', [('Other', P('doc'), ['=', '"item"']), dw(['Debug']), ('Other', P('allow'), ['(', 'dead_code', ')']), repr_attr('C')], GT, ['pub', '(', 'crate', ')'])
